@@ -34,7 +34,7 @@ Act(e) ==
       [] e.ev = "unitless"       -> UnitlessIn(e.reg)
       [] e.ev = "derived"        -> Derived(e.reg, e.key)
       [] e.ev = "roundtrip"      -> RoundTrip(e.reg)
-      [] e.ev = "bexp"           -> BackendExp
+      [] e.ev = "bexp"           -> BackendCall(e.be, e.fn, e.form)
       [] OTHER                   -> FALSE
 
 (* the first clause of the property the observation of event e violates in the current state, *)
@@ -67,14 +67,15 @@ ObsClause(e) ==
       [] e.ev = "roundtrip" -> LET want == E_RoundTrip(e.reg) IN
              IF \E i \in 1..Len(e.units) : e.units[i].dim # want.units[e.units[i].d].dim THEN "unit-dimension"
              ELSE IF \E i \in 1..Len(e.units) : ~Near(e.units[i].si, NOfScale(want.units[e.units[i].d].scale)) THEN "unit-size"
-             ELSE IF \E i \in 1..Len(e.units) : ~Near(e.units[i].factor, want.factor) THEN "factor"
+             ELSE IF \E i \in 1..Len(e.units) : ~Near(e.units[i].factor, want.factor[e.units[i].d]) THEN "factor"
              ELSE IF { e.units[i].d : i \in 1..Len(e.units) } # Dims THEN "keys" ELSE ""
-      \* a dimensionless argument is passed on to the plain routine, whose own range error (exp of
+      \* a dimensionless argument is passed on to the plain routine, whose own range error (math.exp of
       \* more than 709) is not a refusal of units
-      [] e.ev = "bexp" -> IF e.raised = E_BackendExp.raise THEN ""
-                          ELSE IF ~e.raised THEN "missing-raise"
-                          ELSE IF e.exc = "OverflowError" /\ Exceeds(NumRat(E_BackendExp.x), 709) THEN ""
-                          ELSE "unexpected-raise"
+      [] e.ev = "bexp" -> LET x == E_BackendCall(e.be, e.fn, e.form) IN
+             IF e.raised = x.raise THEN ""
+             ELSE IF ~e.raised THEN "missing-raise"
+             ELSE IF e.exc = "OverflowError" /\ e.fn = "exp" /\ \E i \in 1..Len(x.vals) : Exceeds(NumRat(x.vals[i]), 709) THEN ""
+             ELSE "unexpected-raise"
       [] OTHER -> "unknown-event"
 
 TStep ==
